@@ -444,6 +444,13 @@ impl Tag {
             _ => None,
         }
     }
+
+    pub fn element_mut(&mut self) -> Option<&mut SvgElement> {
+        match self {
+            Tag::Compound(el, _) | Tag::Leaf(el, _) => Some(el),
+            _ => None,
+        }
+    }
 }
 
 // Provide a list of tags which can be processed in-order.
